@@ -11,7 +11,7 @@ the meaning of the result — the oracle is the Lean model (correspondence) and,
 Every random choice comes from the rng passed in.  `corpus(rng, n)` -> list of (source, seed name, [transformation labels])."""
 import ast, copy, glob, os
 
-EXPR_POOL = ["'lit'", "b'by'", "b'\\\\'", "b'share\\\\'", "b'\\\\u'", "b'/tmp/\\\\x'", "0", "1", "1024", "2047", "0o777", "0o644", "2.5", "-1", "[]", "['a', 'b']", "[x, 1]", "()", "('a',)", "{1, 2}", "{}", "{'k': 'v'}", "{**d}", "name",
+EXPR_POOL = ["'lit'", "b'by'", "b'\\\\'", "b'share\\\\'", "b'\\\\u'", "b'/tmp/\\\\x'", "0", "1", "1024", "2047", "0o777", "0o644", "2.5", "3j", "1024j", "-1", "[]", "['a', 'b']", "[x, 1]", "()", "('a',)", "{1, 2}", "{}", "{'k': 'v'}", "{**d}", "name",
              "obj.attr", "mod.sub.attr", "call()", "obj.m(1)", "'a' + b", "'a %s' % b", "f'{x}'", "'{}'.format(x)", "None", "True", "False", "...", "lambda: 0",
              "[i for i in y]", "(x if c else y)", "not x", "a[0]", "a.b(t)", "(w_ := 3)", "'/tmp/x'", "'0.0.0.0'", "''", "'SELECT * FROM t WHERE a = %s' % v", "ssl.PROTOCOL_SSLv3",
              "['METHOD_MD5']", "{'a': 1}", "'md5'", "'sha256'", "yaml.SafeLoader", "x.y.z()", "-(1)", "1 << 10", "'*'", "'ls *'", "[1][0]", "(yield_)", "await_"]
@@ -689,7 +689,7 @@ def corpus(rng, n, repo, want=None):
     return out
 
 
-SWEEP_KINDS = ["'lit'", "b'by'", "b'\\\\'", "b'C:\\\\Users\\\\me\\\\'", "b'\\\\x'", "b'/tmp/x\\\\N{'", "'C:\\\\tmp\\\\'", "7", "2.5", "None", "True", "[]", "['METHOD_MD5', 1]", "()", "('a', b)", "{1, 2}", "{}", "{'a': 1}", "name_", "obj_.attr", "call_()", "'a' + b_",
+SWEEP_KINDS = ["'lit'", "b'by'", "b'\\\\'", "b'C:\\\\Users\\\\me\\\\'", "b'\\\\x'", "b'/tmp/x\\\\N{'", "'C:\\\\tmp\\\\'", "7", "2.5", "2j", "None", "True", "[]", "['METHOD_MD5', 1]", "()", "('a', b)", "{1, 2}", "{}", "{'a': 1}", "name_", "obj_.attr", "call_()", "'a' + b_",
                "f'{x_}'", "lambda: 0", "*rest_", "[i for i in y_]", "(w_ := 3)", "a_[0]", "-1", "...",
                # an integer literal beyond the interpreter's int -> str digit limit (4300): valid Python, but str() / ast.unparse of it raise (found on the unchanged tree:
                # B103, B609 and B202 formatted such an argument into their messages); alone and inside a list
